@@ -15,6 +15,10 @@ r = subprocess.run(["git", "-C", "/repo", "apply", os.path.abspath(patch)], capt
 if r.returncode != 0:
     print("patch does not apply:", r.stderr); sys.exit(2)
 res = {}
+# evidence files describe clean-tree runs: keep them out of reach of the seeded runs
+import shutil, tempfile
+ev_backup = tempfile.mkdtemp(prefix="evidence_")
+shutil.copytree(os.path.join(VERIF, "evidence"), os.path.join(ev_backup, "evidence"))
 try:
     env = dict(os.environ, GOFLAGS="-mod=mod", GOPROXY="off", GOSUMDB="off", GOTOOLCHAIN="local")
     t = subprocess.run("cd /repo && go build ./... && go test -vet=off -count=1 ./... 2>&1 | grep -v '^ok\\|no test files' | head -5", shell=True, capture_output=True, text=True, env=env)
@@ -31,6 +35,9 @@ try:
         print("  %s: %s%s (%.1fs)" % (p, tag, extra, time.time() - t0))
 finally:
     subprocess.run(["git", "-C", "/repo", "checkout", "--", "."])
+    shutil.rmtree(os.path.join(VERIF, "evidence"))
+    shutil.copytree(os.path.join(ev_backup, "evidence"), os.path.join(VERIF, "evidence"))
+    shutil.rmtree(ev_backup)
     # regenerate Gen and rebuild on the clean tree so later runs start clean
     subprocess.run([os.path.join(VERIF, "build", "xjs2v"), "/repo", os.path.join(VERIF, "coq", "Gen")])
 print(json.dumps(res))
